@@ -206,13 +206,16 @@ def trace_encode(fx, version, level, boosted, mask_in=None, eci=False, sa_info=N
     if 'boost_error_level' not in real:
         over['boost_error_level'] = stage('boost_error_level', None if boosted is None else lv[boosted])
     genv_over = dict(
-        over, Buffer=B,
+        Buffer=B,
         write_terminator=stage('write_terminator', grow=3), write_padding_bits=stage('write_padding_bits', grow=5),
         write_pad_codewords=stage('write_pad_codewords', grow=16), make_final_message=stage('make_final_message', 'FINAL'),
         make_matrix=stage('make_matrix', M0), add_finder_patterns=stage('add_finder_patterns'), add_alignment_patterns=stage('add_alignment_patterns'),
         add_codewords=stage('add_codewords'), find_and_apply_best_mask=stage('find_and_apply_best_mask', (5, M1)),
         add_format_info=stage('add_format_info'), add_version_info=stage('add_version_info'),
         Code=stage('Code', lambda *a, **k: ('CODE',) + a))
+    for n_ in real:
+        genv_over.pop(n_, None)         # the repository's own stage runs (not recorded)
+    genv_over.update(over)
     genv = encoder_env(fx.forest, it, **genv_over)
     genv_box[0] = genv
     if segments is None and any(stage_policy(fx, n_) == 'real' for n_ in BUFFER_STAGES) and version in (_mvs.get(-3), _mvs.get(-2)):
